@@ -100,6 +100,13 @@ func (p Proof) Prove(key string) error {
 				continue
 			}
 
+			// NOTE at first, the node of the key itself should be proved by
+			// it's children; if it's sibling is accepted instead, the key
+			// is not bound to the hash.
+			if i == 0 && parents[j].Key() != key {
+				continue
+			}
+
 			switch h, err := nodeHash(parents[j], nodes[bi], nodes[bi+1]); {
 			case err != nil:
 				return e.Wrap(err)
